@@ -1248,3 +1248,82 @@ example : ([(0, CtrOp.iter), (1, CtrOp.iterI 7), (0, CtrOp.iter)].foldl (fun s o
 end handles
 
 end MysticVerif.C15
+
+/-! ## the lists handed out by `stored()`: the penalty and its caller share nothing
+
+The property's "equal to the documented expression in ... the stored multiplier histories" and "clear() resets the
+iteration state ... without touching anything else" quantify over HISTORIES of calls; a caller that keeps (and edits)
+what `stored()` returned is part of such a history.  `Sess` = the tree plus the caller's lists (`Model/PenaltyTree`). -/
+
+namespace MysticVerif.C15
+open MysticVerif.Pen
+
+section readings
+variable {K : Type} [Field K] [LinearOrder K] [IsStrictOrderedRing K] [PenOps K] [LawfulPenOps K]
+
+/-- **a penalty depends only on the calls made on it**: after ANY session - mutating calls on arbitrary objects of
+the tree interleaved with the caller reading `stored()` and editing the lists it received in any way - the whole tree
+(hence `p(x)`, `error(x)`, `iteration()`, `stored()` of every object) is what the mutating calls ALONE produce -/
+theorem reading_edits_never_reach_penalty (os : List (SOp K)) (s : Sess K) :
+    (runS os s).t = (treeOps os).foldl (fun t o => o.apply t) s.t := runS_tree os s
+
+/-- one edit of a list the caller holds: the tree, and every OTHER list the caller holds, is untouched -/
+theorem reading_edit_frame (i : Nat) (new : List K) (s : Sess K) :
+    ((SOp.hmut i new).apply s).t = s.t ∧
+    (∀ (env : Env K) (p : List Step), (getT p ((SOp.hmut i new).apply s).t).map (evalT env) = (getT p s.t).map (evalT env)
+      ∧ (getT p ((SOp.hmut i new).apply s).t).map storedT = (getT p s.t).map storedT) ∧
+    ∀ j, j ≠ i → ((SOp.hmut i new).apply s).held[j]? = s.held[j]? := by
+  refine ⟨rfl, fun env p => ⟨rfl, rfl⟩, fun j hj => ?_⟩
+  simp only [SOp.apply]
+  rw [List.getElem?_set_ne (Ne.symm hj)]
+
+/-- `r = obj.stored()` is a snapshot: the caller's new list holds the history of that object at that moment, the tree
+and the lists already held are unchanged -/
+theorem reading_is_copy (p : List Step) (s : Sess K) (sub : PT K) (h : getT p s.t = some sub) :
+    ((SOp.hold p).apply s).t = s.t ∧ ((SOp.hold p).apply s).held = s.held ++ [storedT sub] := by
+  simp only [SOp.apply, h, and_self]
+
+/-- **`clear()` (and `iter`, `store`) touch nothing the caller holds**: a mutating call on any object of the tree leaves
+every list obtained from `stored()` exactly as the caller left it -/
+theorem tree_ops_leave_readings (os : List (TOp K)) (s : Sess K) :
+    (runS (os.map SOp.tree) s).held = s.held := by
+  induction os generalizing s with
+  | nil => rfl
+  | cons o os ih =>
+    simp only [List.map_cons, runS, List.foldl_cons]
+    exact ih _
+
+/-- **a type without multipliers never has a history**: start from freshly built penalties (every non-Lagrange level
+with an empty `_y`); after ANY session, `stored()` of any object of the tree whose type is not a Lagrange type is `[]`
+and `stored(i)` is `0.0` for every `i` -/
+theorem non_lagrange_never_has_history (os : List (SOp K)) (s : Sess K) (hfresh : cleanT s.t = true)
+    (p : List Step) (l : Level K) (c : PC K) (inner : PT K)
+    (hget : getT p (runS os s).t = some (.pen l c inner)) (hnl : l.t.isLag = false) :
+    storedT (.pen l c inner) = [] ∧ ∀ i : Int, storedAt (storedT (PT.pen l c inner)) i = 0 := by
+  have h1 : cleanT (runS os s).t = true := by rw [runS_tree]; exact clean_fold _ _ hfresh
+  have h2 := clean_getT p _ _ h1 hget
+  simp only [cleanT, Bool.and_eq_true, hnl, Bool.false_or, List.isEmpty_iff] at h2
+  have hy : l.y = [] := h2.1.1
+  refine ⟨by simp only [storedT, hy], fun i => ?_⟩
+  simp only [storedT, hy, storedAt]
+  split <;> simp
+
+end readings
+
+section examples3
+local instance : PenOps ℚ := ⟨fun a n => a ^ n, fun a => a * a, fun _ => 0, fun a => |a|, fun _ => 0, 0⟩
+
+/-- a Lagrange level with two stored multipliers around a quadratic level -/
+def exLag : PT ℚ := .pen { t := .lagEq, k := 20, h := 5, n := 2, y := [3, -1] } (.leaf 0)
+  (.pen { t := .qEq, k := 2, h := 5, n := 2, y := [] } (.leaf 1) (.base 0))
+
+-- read, sort / scale / extend the reading, read the inner level, clear: the caller's lists are its own, the tree is
+-- what `clear` alone produces
+example : runS [SOp.hold [], SOp.hmut 0 [-1000, 3, 99], SOp.hold [.down], SOp.hmut 1 [5], SOp.hold [],
+      SOp.tree (TOp.clear [])] ⟨exLag, []⟩
+    = ⟨clearT exLag, [[-1000, 3, 99], [5], [3, -1]]⟩ := by
+  simp [runS, SOp.apply, TOp.apply, modT, getT, storedT, exLag]
+example : cleanT exLag = true := by simp [cleanT, cleanC, exLag, PType.isLag]
+end examples3
+
+end MysticVerif.C15
